@@ -13,6 +13,8 @@ for mid in sorted(os.listdir(os.path.join(ROOT, "seeded"))):
         continue
     d = os.path.join(ROOT, "seeded", mid)
     patch = os.path.join(d, "patch.diff")
+    if not os.path.isfile(patch):
+        continue
     meta_path = os.path.join(d, "meta.json")
     meta = json.load(open(meta_path)) if os.path.exists(meta_path) else {}
     rdir = tempfile.mkdtemp(prefix="confirm-")
